@@ -5,10 +5,18 @@
    maximum, range deletes, plain writes on neighbouring keys):  SeqRule (new key = prefix + suffixes of the
    highest existing key of the prefix, zero where none, + deltas; strictly above every existing key of the
    prefix; not an overwrite) and SeqFresh (keys generated inside one request are new and distinct).
+   Suffixes and deltas are uint64: the specification keeps them as decimal strings (Delta20 / Sum21 / AddU64)
+   and a second alphabet (mode c16big) offers the deltas 2^31, 2^63-1, 2^63, 2^63+1, 2^64-2, 2^64-1 next to 1 in
+   one- and two-suffix sequences, with deletes / overwrites of the maximum, a range delete of the sequence and
+   restarts, so that suffixes cross 2^31 and 2^63, reach 2^64-1 and pass it.  SeqRule / SeqFresh / SeqGrows are
+   claimed wherever the exact result is a uint64; beyond (SeqOverflow) the code wraps modulo 2^64 - Apply
+   transcribes it, the class is the recorded finding seqOverflow (witness replayed on every run).
 2. spec -> code: every transition and long simulated behaviours are replayed on a real kv.DB and on a real
    RF=1 leader; the generated key in the PutResponse and the key listing are compared.
 3. code -> spec: random sequence-heavy request streams (three prefixes with 1, 2 and 3 deltas, mixed with
-   conditional writes, deletes, ranges, reopen) are recorded and judged by TLC (DbTrace.tla).
+   conditional writes, deletes, ranges, reopen; small deltas, and deltas anywhere in uint64 - jumps next to
+   2^31 / 2^32 / 2^62 / 2^63 / 2^64-1 followed by small steps across them) are recorded and judged by TLC
+   (DbTrace.tla).
 4. OverrideChannel.tla (common/channel/override_channel.go, one action per select): TLC checks
    <>[](lastReceived = lastWritten) under weak fairness plus Monotone / LatestKept; a mutant that drops the
    value when the buffer is full must violate them; stress runs of the real channel (2 writers, 1 receiver,
@@ -79,9 +87,14 @@ def run(ctx):
     res = _db.replay(ctx, binp, path, "db", SCOPE, "runs")
     _db.report(ctx, res, "c16-run")
 
-    _db.drive_and_validate(ctx, binp, "db", "seq", 45 if quick else 450, 30, "db-trace-c16.cfg", "seq", 1)
+    _db.drive_and_validate(ctx, binp, "db", "seq", 16 if quick else 300, 30, "db-trace-c16.cfg", "seq", 1)
+    # ... and with deltas anywhere in uint64: one jump next to 2^31 / 2^32 / 2^62 / 2^63 / 2^64-1 and small steps
+    # across it, or arbitrary deltas (the invariant of this configuration leaves IndexMirror out: a sequence put
+    # that wraps onto a live key - finding seqOverflow - replaces the record without removing its index entries)
+    _db.drive_and_validate(ctx, binp, "db", "seqwide", 24 if quick else 300, 30, "db-trace-c16.cfg", "seqwide", 3)
     if not quick:
         _db.drive_and_validate(ctx, binp, "leader", "seq", 40, 30, "db-trace-c16.cfg", "seq-leader", 2)
+        _db.drive_and_validate(ctx, binp, "leader", "seqwide", 40, 30, "db-trace-c16.cfg", "seqwide-leader", 4)
 
     # override channel
     r = ctx.tlc("OverrideChannel", "chan-live.cfg" if quick else "chan-live-thorough.cfg", label="chan", heap="1g")
@@ -121,19 +134,24 @@ def _overflow_finding(ctx, binp, hits):
         wp = os.path.join(vf.VERIF, f["witness"])
         if not os.path.exists(wp):
             raise vf.Inconclusive("witness %s missing" % wp)
+        MAXU = "18446744073709551615"
+        still = []
         for mode in ("db", "leader"):
             res = _db.replay(ctx, binp, wp, mode, SCOPE, "witness-overflow-" + mode)
             _db.report(ctx, res, "c16-witness-overflow-" + mode, "witness of seqOverflow deviates outside its overflow steps:")
             wraps = [h for h in res["findings"] if h["err"].startswith("wraps")]
             if wraps:
-                n = sum(h["count"] for h in hits if h["err"].startswith("wraps"))
-                ctx.known_finding("seqOverflow [%s]: a sequence put whose suffix + delta exceeds 2^64-1 is not refused, the sum wraps: "
-                                  "the generated key is not above the existing keys and can replace a live record, e.g. %s -> %s "
-                                  "(%d enumerated behaviours of this class behave the same)" %
-                                  (mode, wraps[-1]["req"], wraps[-1]["err"], n))
+                still.append((mode, max(wraps, key=lambda h: (MAXU in h["req"]) + (MAXU in h["err"]))))
             for h in res["findings"]:
                 if not h["err"].startswith("wraps"):
                     ctx.log("seqOverflow witness: %s -> %s" % (h["req"], h["err"][:300]))
+        if still:
+            n = sum(h["count"] for h in hits if h["err"].startswith("wraps"))
+            ex = still[0][1]
+            ctx.known_finding("seqOverflow (%s): a sequence put whose suffix + delta exceeds 2^64-1 is not refused, the uint64 sum wraps: "
+                              "the generated key is not above the existing keys of the prefix and can be the key of a live record, which is "
+                              "replaced - e.g. (%s) %s -> %s (%d enumerated behaviours of this class behave the same)" %
+                              (" and ".join(m for m, _ in still), f["witness"], ex["req"], ex["err"], n))
     other = [h for h in hits if not h["err"].startswith("wraps")]
     if other:
         ctx.log("%d overflowing request(s) are no longer treated by wrapping, e.g. %s -> %s" % (len(other), other[0]["req"], other[0]["err"][:300]))
